@@ -203,6 +203,7 @@ type Worker struct {
 	lines  chan string
 	stderr *ring
 	Budget time.Duration
+	hangs  map[string]int // confirmed hangs per op kind in this run
 }
 
 func NewWorker(testName string) *Worker {
@@ -342,6 +343,19 @@ func parseAnswer(raw string, inputLen int) Result {
 // ten times the budget; only if all of them time out the op is a hang.
 func (w *Worker) Do(op string, inputLen int) Result {
 	budgets := []time.Duration{w.Budget, 10 * w.Budget, 10 * w.Budget, 10 * w.Budget}
+	// a tree in which one kind of op hangs usually hangs on hundreds of inputs: the first three hangs of a kind are
+	// confirmed in full (62 s each), the next ones on the first budget only, and after eight the kind is no longer run
+	// (every one of them is reported as a hang; the oracle reports the kind once, with the first input as the replay)
+	kind := strings.Fields(op + " x")[0]
+	if w.hangs == nil {
+		w.hangs = map[string]int{}
+	}
+	if w.hangs[kind] >= 8 {
+		return Result{Class: "hang", Answer: "hang", Msg: "not run: eight ops of this kind did not answer"}
+	}
+	if w.hangs[kind] >= 3 {
+		budgets = budgets[:1]
+	}
 	for _, budget := range budgets {
 		raw, st := w.once(op, budget)
 		switch st {
@@ -365,6 +379,10 @@ func (w *Worker) Do(op string, inputLen int) Result {
 			}
 			return Result{Class: "crash", Answer: "crash", Site: "fatal", Msg: fl}
 		}
+	}
+	w.hangs[kind]++
+	if len(budgets) == 1 {
+		return Result{Class: "hang", Answer: "hang", Msg: fmt.Sprintf("no answer within %s (three earlier ops of this kind were confirmed three times alone)", w.Budget)}
 	}
 	return Result{Class: "hang", Answer: "hang", Msg: fmt.Sprintf("no answer within %s, three times, alone", 10*w.Budget)}
 }
